@@ -874,6 +874,16 @@ func (e *SpecEnv) call(x *ast.CallExpr) T {
 				}
 				ksSort := fmt.Sprintf("(Array Int %s)", g.sortOf(mt.Key()))
 				return mk(mr.ord, ksSort, types.NewMap(types.Typ[types.Int], mt.Key()))
+			case "nolocks":
+				// no mutex is held at this point (symbolic lock set of the current state)
+				if len(e.cur.held) == 0 {
+					return tTrue
+				}
+				return tFalse
+			case "ctxfresh":
+				return boolT(sel(g.arr(e.cur, ctxFreshArr, "Bool"), "0"))
+			case "ctxdone":
+				return boolT(sel(g.arr(e.cur, ctxDoneArr, "Bool"), "0"))
 			case "isint":
 				v := e.eval(x.Args[0])
 				if v.Sort != "Real" {
